@@ -348,7 +348,7 @@ PROPS = {
         "features": ["crypto", "hooks"],
         "stages": [
             {"mode": "native", "cpu_budget": 400},
-            {"mode": "tsan", "shards": 4, "scale": 0.05, "tiers": ["thorough"], "cpu_budget": 900},
+            {"mode": "tsan", "shards": 4, "scale": 1.0, "tiers": ["thorough"], "cpu_budget": 900},
         ],
         "rule": "an evaluation is one request (of 1-60 per case, issued in 1-3 waves separated by pauses longer than every timeout) through one of the six client "
                 "transports (dgram, stream, multi_stream, dgram_stream, redundant over dgram+multi_stream, load_balancer over two dgram) wired to mock datagram "
@@ -359,7 +359,9 @@ PROPS = {
                 "refused; every fourth case the peer is honest (each request answered once, correctly, within 0.8 s, in any order) and every request must "
                 "succeed; on the plain stream transport (real time, delays a tenth as long) also a silent peer under a trickle of requests, and a connection "
                 "that is used again after it fell idle: a few requests answered, a pause inside the idle timeout, then one request the peer never answers, "
-                "which has to fail within the response timeout. Oracle over the caller's result joined with the peer's log of (wire ID, query name): an Ok message has QR set, an ID that was used for "
+                "which has to fail within the response timeout; an honest peer that answers all requests with one write and closes; one connection "
+                "carrying 66000 requests a few at a time; and a real-thread family (multi-thread runtime, real time, honest peer, 20-80 concurrent "
+                "requests per case over each transport; all there is to the ThreadSanitizer stage). Oracle over the caller's result joined with the peer's log of (wire ID, query name): an Ok message has QR set, an ID that was used for "
                 "this very request, and this request's question (or, without question, an error rcode and empty sections); every request completes, and within "
                 "the transport's timeout-and-retry budget (virtual time); a truncated datagram answer is only handed out after the stream was tried; no panic; "
                 "distinct = (transport, outcome class, rcode/TC, virtual latency class, number of transmissions)",
